@@ -25,7 +25,8 @@ function entity(ch, rng) {
   const r = rng ? rng.int(3) : 0
   if (r === 0 && NAMED_ENT[ch]) return NAMED_ENT[ch]
   if (r === 1) return '&#' + cp + ';'
-  return '&#x' + cp.toString(16) + (rng && rng.bool() ? '' : '') + ';'
+  const h = cp.toString(16)
+  return '&#x' + (rng && rng.bool(0.4) ? h.toUpperCase() : h) + ';'
 }
 
 /** Spell a decoded static string for text (`quote === null`) or for an attribute value quoted with `quote`. */
@@ -83,11 +84,16 @@ export function attrSourceName(a) {
 function sp(st, must) {
   const rng = st.rng
   if (!rng || !st.layout) return must ? ' ' : ''
-  const r = rng.int(10)
+  const r = rng.int(14)
   if (r < 6) return must ? ' ' : ''
   if (r < 8) return ' '
   if (r === 8) return '\n  '
-  return '\t'
+  if (r === 9) return '\t'
+  // every HTML whitespace character separates attributes: CR LF, a lone CR, form feed
+  if (r === 10) return '\r\n'
+  if (r === 11) return '\r'
+  if (r === 12) return '\f'
+  return ' \r\n\t'
 }
 
 function ctlAttrs(ctl, st) {
@@ -150,11 +156,11 @@ export function printNode(n, st, ctl) {
     case 'if': {
       let s = ''
       n.branches.forEach((b, i) => {
-        if (i > 0 && st.rng && st.between) s += st.rng.pick(['', ' ', '\n', '<!-- c -->', ' <!--x--> '])
+        if (i > 0 && st.rng && st.between) s += st.rng.pick(['', ' ', '\n', '<!-- c -->', ' <!--x--> ', '\r\n', '\r\n\t', '\f'])
         s += printNode(b.node, st, i === 0 ? { if: b.cond } : { elif: b.cond })
       })
       if (n.els) {
-        if (st.rng && st.between) s += st.rng.pick(['', ' ', '\n', '<!-- c -->'])
+        if (st.rng && st.between) s += st.rng.pick(['', ' ', '\n', '<!-- c -->', '\r\n', '\r'])
         s += printNode(n.els, st, { else: true })
       }
       return s
